@@ -42,6 +42,7 @@ class Tracker:
         self.n_handle = 0
         self.n_token = 0
         self.n_client = 1
+        self.hold = {}                 # client -> its proxies are still referenced (module global) when it exits
 
     # -- allocation
     def new_ident(self, kind):
@@ -153,7 +154,9 @@ def gen_case(rng: random.Random, tier: str, bias: str = ''):
             pairs.append([h, hc])
             T.handles[q][hc] = i
             macros += [f'pickle {parent} {i}', f'unpickle {q} {i}']
-        emit('spawn', parent, ['spawn', q, pairs, proc_cls, rng.random() < 0.5], macros)
+        hold = rng.random() < 0.5
+        T.hold[q] = hold
+        emit('spawn', parent, ['spawn', q, pairs, proc_cls, hold], macros)
         return q
 
     def running():
@@ -447,8 +450,10 @@ def gen_case(rng: random.Random, tier: str, bias: str = ''):
             return False
         q = rng.choice(cands)
         parent = T.parent[q]
+        nh = len(T.handles[q])
         del T.handles[q]
         emit('exit', parent, ['exit', q, parent], [f'exit {q}'])
+        steps[-1]['alive_at_exit'] = nh if T.hold[q] else 0
         return True
 
     def op_call():
@@ -487,8 +492,10 @@ def gen_case(rng: random.Random, tier: str, bias: str = ''):
                     i = T.handles[q].pop(h)
                     emit('delete', q, ['delete', h], [f'delete {q} {i}'], probe=False)
             parent = T.parent[q]
+            nh = len(T.handles[q])
             del T.handles[q]
             emit('exit', parent, ['exit', q, parent], [f'exit {q}'], probe=False)
+            steps[-1]['alive_at_exit'] = nh if T.hold[q] else 0
         hs = sorted(T.handles['0'])
         rng.shuffle(hs)
         for h in hs:
@@ -499,12 +506,40 @@ def gen_case(rng: random.Random, tier: str, bias: str = ''):
                 seed=rng.randrange(1 << 30))
 
 
+def _shape(case):
+    ops = [st['op'] for st in case['steps']]
+    inherits = any(st['op'] == 'spawn' and st['cmd'][2] for st in case['steps'])
+    held_exit = any(st.get('alive_at_exit', 0) > 0 for st in case['steps'])
+    return dict(
+        f16_inherit=inherits and 'exit' in ops and case['winddown'],
+        f16_exit_held=held_exit and case['winddown'],
+        f21_managed_mem='managed:make_mem' in ops or 'managed:make_bundle' in ops,
+        f21_pop='pop' in ops,
+        f24_raising_arg=any(o in ops for o in ('pass:index', 'pass:remove', 'pass:insert')),
+        nested_release=('store' in ops or 'extend' in ops) and case['winddown'] and case['n_idents'] >= 3,
+        transit_only='pickle' in ops and 'unpickle' in ops and 'delete' in ops,
+        view_again=ops.count('managed:inner') >= 2,
+    )
+
+
+_BOUNDARY = None
+
+
 def boundary_cases():
-    """hand-picked shapes: the two suspected defects and the smallest lifetimes"""
-    out = []
-    for seed, bias in [(1, ''), (2, ''), (3, '')]:
-        out.append(gen_case(random.Random(f'b{seed}'), 'quick', bias))
-    return out
+    """The shapes of the known defects (Legacy/Refcount.lean witnesses: F16 inherit / exit with live
+    proxies, F21 managed()/pop reply, F24 raising call with a proxy argument) and of the smallest
+    lifetimes, picked deterministically as the shortest of 300 fixed-seed histories having each
+    shape — always run first, whatever the seed."""
+    global _BOUNDARY
+    if _BOUNDARY is None:
+        best = {}
+        for k in range(300):
+            c = gen_case(random.Random(f'boundary-{k}'), 'quick')
+            for name, has in _shape(c).items():
+                if has and (name not in best or len(c['steps']) < len(best[name]['steps'])):
+                    best[name] = c
+        _BOUNDARY = [dict(c, boundary=name) for name, c in sorted(best.items())]
+    return [dict(c) for c in _BOUNDARY]
 
 
 def nontrivial(case, res):
